@@ -1,56 +1,51 @@
 #!/usr/bin/env python3
-"""Regenerates MANIFEST.json from the table below (keeps it valid at all times)."""
+"""Regenerates MANIFEST.json: a property is claimed iff harness/checks/cXX.py exists and defines
+TECHNIQUE / LEVEL_TEXT / LEVEL_NOTE (read with ast, nothing is imported) and is not listed in HOLD."""
+import ast
 import json
 import os
 
 HERE = os.path.dirname(os.path.dirname(os.path.abspath(__file__)))
+HOLD = {}  # property -> reason it is deliberately not claimed although a module exists
 
-# property -> (technique, level text, level note, design ref)
-CLAIMED = {
-    "C01": (
-        "property-based testing (Hypothesis): generated physical / physical+known-defect objects vs refmodel defect magnitudes with verdict margins; metamorphic atol monotonicity",
-        "Generated-input search: for thousands of constructed objects per run (all four types, four shapes, all rank classes, defects from 1e-3*atol to O(1) in named directions, atol in [1e-13,1e-2], explicit and global) every verdict, the constructor behaviour, origin/zero objects and the basis-generic branches are compared with defect magnitudes recomputed by an independent numpy model. It cannot prove absence; it reaches the near-threshold and boundary region that fixed examples do not.",
-        "Trusted base: numpy LAPACK (eigh/qr), harness/refmodel.py, the verdict-margin rule (verdicts only asserted when the defect is <= atol/10 or >= 10*atol, under both normalisation conventions).",
-        "DESIGN.md section 6 C01",
-    ),
-}
 
-NOT_YET = {}
+def consts(path):
+    tree = ast.parse(open(path).read())
+    out = {}
+    for node in tree.body:
+        if isinstance(node, ast.Assign) and len(node.targets) == 1 and isinstance(node.targets[0], ast.Name):
+            name = node.targets[0].id
+            if name in ("TECHNIQUE", "LEVEL_TEXT", "LEVEL_NOTE", "NOT_APPLICABLE"):
+                try:
+                    out[name] = ast.literal_eval(node.value)
+                except Exception:
+                    pass
+    return out
 
 
 def main():
     props = [json.loads(l) for l in open(os.path.join(HERE, "properties.jsonl"))]
-    checks = []
+    checks, na, claimed = [], [], []
     for p in props:
         pid = p["id"]
-        if pid not in CLAIMED:
+        path = os.path.join(HERE, "harness", "checks", pid.lower() + ".py")
+        c = consts(path) if os.path.exists(path) else {}
+        if pid in HOLD or not all(k in c for k in ("TECHNIQUE", "LEVEL_TEXT", "LEVEL_NOTE")):
+            na.append({"property_id": pid, "reason": HOLD.get(pid, c.get("NOT_APPLICABLE",
+                "check not built yet (the technique applies, see DESIGN.md section 6); not claimed until its check exists and is quiet on the unchanged tree"))})
             continue
-        tech, text, note, ref = CLAIMED[pid]
-        checks.append(
-            {
-                "property_id": pid,
-                "quick_cmd": f"./run_check.sh {pid} --tier quick",
-                "thorough_cmd": f"./run_check.sh {pid} --tier thorough",
-                "evidence_file": f"evidence/{pid}.json",
-                "replay_cmd_template": f"./run_check.sh {pid} --replay {{path}}",
-                "engine": "hypothesis-runner",
-                "level_claimed": {"category": "exploration", "text": text, "design_ref": ref},
-                "level_note": note,
-                "technique": tech,
-            }
-        )
-    na = []
-    for p in props:
-        if p["id"] not in CLAIMED:
-            na.append(
-                {
-                    "property_id": p["id"],
-                    "reason": NOT_YET.get(
-                        p["id"],
-                        "check not built yet in this round (the technique applies; see DESIGN.md section 6) - not claimed until its check exists and is quiet on the unchanged tree",
-                    ),
-                }
-            )
+        claimed.append(pid)
+        checks.append({
+            "property_id": pid,
+            "quick_cmd": f"./run_check.sh {pid} --tier quick",
+            "thorough_cmd": f"./run_check.sh {pid} --tier thorough",
+            "evidence_file": f"evidence/{pid}.json",
+            "replay_cmd_template": f"./run_check.sh {pid} --replay {{path}}",
+            "engine": "hypothesis-runner",
+            "level_claimed": {"category": "exploration", "text": c["LEVEL_TEXT"], "design_ref": f"DESIGN.md section 6 {pid}"},
+            "level_note": c["LEVEL_NOTE"],
+            "technique": c["TECHNIQUE"],
+        })
     man = {
         "version": 1,
         "setup_cmd": "/venv/bin/python -c 'import hypothesis' 2>/dev/null || /venv/bin/pip install --no-index --find-links /opt/veriftools/wheels hypothesis",
@@ -61,21 +56,19 @@ def main():
             "source_commits": [],
             "add_only": True,
         },
-        "engines": [
-            {
-                "name": "hypothesis-runner",
-                "path": "harness/runner.py",
-                "serves_properties": sorted(CLAIMED),
-                "kind_free_text": "Hypothesis 6.168 property-based testing (generated cases, program/history cases, exhaustive enumerations) sharded over 16 processes, with an independent numpy reference model as oracle and JSON replay files",
-            }
-        ],
+        "engines": [{
+            "name": "hypothesis-runner",
+            "path": "harness/runner.py",
+            "serves_properties": claimed,
+            "kind_free_text": "Hypothesis 6.168 property-based testing (generated cases, program/history cases, exhaustive enumerations) sharded over 16 processes, with an independent numpy reference model as oracle and JSON replay files",
+        }],
         "checks": checks,
         "not_applicable": na,
         "notes": "Repairs of genuine defects are 'fix:' commits in /repo listed in known_findings.json (status fixed); see DESIGN.md sections 4 and 8.",
     }
     with open(os.path.join(HERE, "MANIFEST.json"), "w") as f:
         json.dump(man, f, indent=1)
-    print("claimed", sorted(CLAIMED), "not claimed", [x["property_id"] for x in na])
+    print("claimed", claimed, "| not claimed", [x["property_id"] for x in na])
 
 
 if __name__ == "__main__":
